@@ -40,26 +40,50 @@ AnnUniverse(P) == {{}} \cup {{f} : f \in Feats1(P, "g", Defs1) \cup Feats2(P, "g
                        \cup AnnPairs(P)
 
 BaseSeqs == IF Rich THEN {<<0, 0, 2, 1, 3, 2>>, <<3, 1, 1, 0, 2, 0>>} ELSE {<<0, 0, 2, 1, 3, 2>>}
-XSeq(n)  == SubSeq(<<1, 3, 0, 2, 1, 0, 3, 3>>, 1, n)        \* the value written by setfeat / setslice
+\* (the values written by setfeat / setint / setslice are XFor / NextSym of AnnotSliceOps)
 
-AnnSeqs == UNION {{AS(A, SubSeq(sn[1], 1, sn[3]), sn[2]) : A \in AnnUniverse(sn[2]..(sn[2] + sn[3] - 1))} :
-                    sn \in BaseSeqs \X Starts \X (0..MaxLen)}
+UnambAnnSeqs == UNION {{AS(A, SubSeq(sn[1], 1, sn[3]), sn[2]) : A \in AnnUniverse(sn[2]..(sn[2] + sn[3] - 1))} :
+                         sn \in BaseSeqs \X Starts \X (0..MaxLen)}
+
+\* Symbol family: the calls whose result depends on the MEANING of the symbols (reverse strand
+\* = complement) on sequences over both nucleotide alphabets.  Every one of the 15 codes occurs
+\*  - alone (<<x>>: codes 0..3 give sequences with the unambiguous alphabet, 4..14 ambiguous),
+\*  - in windows of a fixed permutation of all codes (order of reversal / concatenation).
+\* The annotations are the ones that matter for reading / writing through a feature: one
+\* location, two disjoint locations on one strand, three single-base locations; both strands.
+SymRing     == <<10, 1, 12, 5, 4, 13, 6, 0, 8, 11, 2, 9, 14, 3, 7>>       \* H C V Y R D W A M B G K N T S
+SymOffsets  == IF Rich THEN 0..11 ELSE {0, 4, 8, 11}
+SymSeqs(n)  == IF n = 1 THEN {<<x>> : x \in AmbSyms}
+               ELSE {SubSeq(SymRing, o + 1, o + n) : o \in {q \in SymOffsets : q + n <= 15}}
+SymAnnUniverse(P) ==
+  {{}} \cup {{f} : f \in Feats1(P, "g", {{}})
+                      \cup {g \in Feats2(P, "g", {{}}) : Cardinality(g.locs) = 2 /\ SingleStrand(g) /\ DisjointLocs(g)}
+                      \cup Feats3(P, "t")}
+SymAnnSeqs == UNION {UNION {{AS(A, q, st) : A \in SymAnnUniverse(st..(st + n - 1))} : q \in SymSeqs(n)} :
+                       <<st, n>> \in Starts \X (1..MaxLen)}
+ASSUME UNION {{q[k] : k \in DOMAIN q} : q \in SymSeqs(MaxLen)} = AmbSyms \/ MaxLen < 4
+
+AnnSeqs == UnambAnnSeqs \cup SymAnnSeqs
 
 SliceArgs(lo, hi) == {ab \in OptInts(lo..hi) \X OptInts(lo..hi) : Dom_SliceOrdered(ab[1], ab[2])}
 
+\* slicing does not look at the symbols: in the symbol family only the empty annotation and the
+\* three-location features are sliced (every slice of the unambiguous family is enumerated)
+SliceHere(S) == ~IsAmb(S.seq) \/ S.ann = {} \/ \E f \in S.ann : f.key = "t"
 CallsAnnSeq(S) ==
-       {<<"slice", ab>> : ab \in {x \in SliceArgs(S.start - 1, SeqEnd(S)) :
+       (IF ~SliceHere(S) THEN {} ELSE
+        {<<"slice", ab>> : ab \in {x \in SliceArgs(S.start - 1, SeqEnd(S)) :
                                     \/ Dom_SliceInSeq(S, x[1], x[2])
                                     \/ (x[1] = Some(S.start - 1)             \* documented refusal
-                                        /\ (IsNone(x[2]) \/ Val(x[2]) >= S.start))}}
+                                        /\ (IsNone(x[2]) \/ Val(x[2]) >= S.start))}})
   \cup {<<"getfeat", <<f>>>> : f \in {g \in S.ann : Dom_FeatIndex(S, g)}}
-  \cup {<<"setfeat", <<f, XSeq(FeatLen(f))>>>> : f \in {g \in S.ann : Dom_FeatIndex(S, g) /\ SingleStrand(g)}}
+  \cup {<<"setfeat", <<f, XFor(S, FeatLen(f))>>>> : f \in {g \in S.ann : Dom_FeatIndex(S, g) /\ SingleStrand(g)}}
   \cup {<<"revcomp", <<s2>>>> : s2 \in {1, 2}}
   \cup {<<"copy", <<>>>>}
   \cup (IF S.ann # {} THEN {} ELSE     \* sequence-only calls do not depend on the annotation
           {<<"getint", <<p>>>> : p \in PosSet(S)}
-     \cup {<<"setint", <<p, (SymAt(S, p) + 1) % 4>>>> : p \in PosSet(S)}
-     \cup {<<"setslice", <<ab[1], ab[2], XSeq(SliceHi(S, ab[2]) - SliceLo(S, ab[1]))>>>> :
+     \cup {<<"setint", <<p, NextSym(S, p)>>>> : p \in PosSet(S)}
+     \cup {<<"setslice", <<ab[1], ab[2], XFor(S, SliceHi(S, ab[2]) - SliceLo(S, ab[1]))>>>> :
              ab \in SliceArgs(S.start, SeqEnd(S))})
 
 \* bare annotations: positions around zero, negative ones included
@@ -114,8 +138,12 @@ InvSliceKeepsFeatureSeq ==
 InvGetImplDecl   == (c.op = "getfeat" /\ r.oc = "ok") => Law_GetImplDecl(S0, c.a[1])
 InvSetGet        == c.op = "setfeat" => (Dom_SetFeature(S0, c.a[1], c.a[2]) /\ Law_SetGet(S0, c.a[1], c.a[2]))
 InvRevComp       == c.op = "revcomp" => Law_RevComp(S0, c.a[1])
+\* the written data of the configuration lie in the property's domain (alphabet of the target)
+InvWriteDom      == /\ c.op = "setint" => Dom_WriteSym(S0, c.a[2]) /\ c.a[2] # SymAt(S0, c.a[1])
+                    /\ c.op = "setslice" => Dom_Write(S0, c.a[3])
 InvResult        == /\ WellFormedAnn(r.ann)
                     /\ r.oc \in {"ok", "Rejected"}
                     /\ (r.oc = "Rejected" => (r.ann = c.ann /\ r.seq = c.seq /\ r.start = c.start))
                     /\ (c.kind = "annseq" => Dom_LocsInSeq(AS(r.ann, r.seq, r.start)))
+                    /\ Dom_Syms(r.seq)
 =============================================================================
